@@ -124,7 +124,7 @@ func c03PairingSpecs(hasVector bool) []*edt.Spec {
 		{
 			Pkg: "curve", Func: "expandedEdwardsMultiscalarMulPippengerVartime", SymLoops: true, MinPaths: minPaths,
 			Opaque: []string{"curve.edwardsMultiscalarMulPippengerVartimeVector", "curve.edwardsMultiscalarMulPippengerVartimeGeneric"},
-			Abbrev: [][2]string{{"(φL0.1 + 1)", "IDX"}},
+			Abbrev: [][2]string{{"φL0.1", "IDX"}},
 			Vars:   map[string]string{"(IDX < len($staticPoints))": "more", "@curve.supportsVectorizedEdwards": "vector"},
 			Classify: func(p *edt.Path, out string, e *edt.Env) string {
 				switch {
